@@ -251,6 +251,194 @@ func (signer) RoundTripper(base http.RoundTripper) (http.RoundTripper, error) {
 	}), nil
 }
 
+// earlyPairs: request A carries a large body to a server that answers at once WITHOUT reading it -- net/http then hands the
+// response back while its writer may still hold A's body --, and request B follows immediately from the same goroutine
+// through the same client.  B is an ordinary request: the handler behind the middleware must read exactly B's bytes (seeded
+// change C16-8 recycled the compressed-body buffer of A while the transport still held it).
+func (e *env) earlyPairs(seed int64) []map[string]any {
+	early := http.Server{Handler: http.HandlerFunc(func(w http.ResponseWriter, _ *http.Request) { w.WriteHeader(http.StatusBadRequest) })}
+	ln, err := net.Listen("tcp", "127.0.0.1:0")
+	if err != nil {
+		return nil
+	}
+	go func() { _ = early.Serve(ln) }()
+	defer early.Close()
+	all := []string{"deflate", "gzip", "identity", "lz4", "snappy", "zlib", "zstd"}
+	url, err := e.server(64<<20, all)
+	if err != nil {
+		return nil
+	}
+	var bad []map[string]any
+	k := 0
+	for _, enc := range []string{"gzip", "zstd", "snappy", "zlib", "deflate", "lz4"} {
+		c, err := e.client(enc, 0, false)
+		if err != nil {
+			continue
+		}
+		for rep := 0; rep < 8 && len(bad) < 5; rep++ {
+			k++
+			bodyA := makeBody("random", 3<<20, seed*7919+int64(k))
+			bodyB := makeBody("text", int64(20000+137*k), seed*104729+int64(k))
+			want := sha256.Sum256(bodyB)
+			_, _ = e.do(c, "http://"+ln.Addr().String(), fmt.Sprintf("ea%d", k), enc, bodyA)
+			pid := fmt.Sprintf("eb%d", k)
+			code, err := e.do(c, url, pid, enc, bodyB)
+			rec := e.probe.get(pid, false)
+			what := ""
+			switch {
+			case err != nil && strings.Contains(err.Error(), "with Body length"):
+				what = "the client stack produced an inconsistent request: " + err.Error()
+			case err != nil:
+				continue // a connection incident: no verdict
+			case rec == nil:
+				what = fmt.Sprintf("the handler was not reached (status %d)", code)
+			default:
+				select {
+				case <-rec.done:
+					if rec.n != int64(len(bodyB)) || rec.sum != want {
+						what = fmt.Sprintf("the handler read %d bytes (error %q), the client was given %d bytes; content equal: %v", rec.n, rec.err, len(bodyB), rec.sum == want)
+					}
+				case <-time.After(30 * time.Second):
+					what = "the handler did not finish reading the body within 30 s"
+				}
+				e.probe.drop(pid)
+			}
+			if what != "" {
+				bad = append(bad, map[string]any{"id": -k, "what": fmt.Sprintf("enc=%s: request B (%d bytes) sent right after a request the server answered without reading its 3 MiB body: %s", enc, len(bodyB), what)})
+			}
+		}
+	}
+	return bad
+}
+
+// lateSigner: an inner round tripper that answers at once and transfers the request LATER, in a goroutine of its own, keeping
+// the body it was handed until then.  http.RoundTripper allows this ("RoundTrip must always close the body ... but may do so
+// in a separate goroutine even after RoundTrip returns"); HTTP/2 and early server replies behave like it.  The body must
+// stay what the compression layer made of THIS request until the transfer has happened.
+type lateSigner struct {
+	mu   sync.Mutex
+	gate map[string]chan struct{}
+	done map[string]chan struct{}
+}
+
+func (*lateSigner) Start(context.Context, component.Host) error { return nil }
+func (*lateSigner) Shutdown(context.Context) error              { return nil }
+func (l *lateSigner) RoundTripper(base http.RoundTripper) (http.RoundTripper, error) {
+	return rtFunc(func(req *http.Request) (*http.Response, error) {
+		id := req.Header.Get("X-Verif-Late")
+		if id == "" {
+			return base.RoundTrip(req)
+		}
+		gate, done := make(chan struct{}), make(chan struct{})
+		l.mu.Lock()
+		l.gate[id], l.done[id] = gate, done
+		l.mu.Unlock()
+		r2 := req.Clone(context.Background())
+		r2.Body = req.Body
+		r2.Header.Del("X-Verif-Late")
+		go func() {
+			defer close(done)
+			<-gate
+			resp, err := base.RoundTrip(r2)
+			if err == nil {
+				_, _ = io.Copy(io.Discard, resp.Body)
+				resp.Body.Close()
+			}
+		}()
+		return &http.Response{StatusCode: http.StatusAccepted, Status: "202 Accepted", Proto: "HTTP/1.1", ProtoMajor: 1, ProtoMinor: 1,
+			Header: http.Header{}, Body: http.NoBody, Request: req}, nil
+	}), nil
+}
+
+var lateID = component.MustNewID("late")
+
+type lateHost struct {
+	component.Host
+	l *lateSigner
+}
+
+func (h lateHost) GetExtensions() map[component.ID]component.Component {
+	return map[component.ID]component.Component{lateID: h.l}
+}
+
+// latePairs: request A goes through the late-transfer round tripper (answered at once, body kept), request B follows through
+// the same client and completes, then A's transfer is released.  The handler behind the middleware must read exactly A's
+// bytes for A and B's for B.
+func (e *env) latePairs(seed int64) []map[string]any {
+	all := []string{"deflate", "gzip", "identity", "lz4", "snappy", "zlib", "zstd"}
+	url, err := e.server(64<<20, all)
+	if err != nil {
+		return nil
+	}
+	var bad []map[string]any
+	k := 0
+	for _, enc := range []string{"gzip", "zstd", "snappy", "zlib", "deflate", "lz4"} {
+		l := &lateSigner{gate: map[string]chan struct{}{}, done: map[string]chan struct{}{}}
+		cfg := confighttp.NewDefaultClientConfig()
+		cfg.Timeout = 60 * time.Second
+		var t configcompression.Type
+		if err := t.UnmarshalText([]byte(enc)); err != nil {
+			continue
+		}
+		cfg.Compression = t
+		cfg.Auth = &configauth.Authentication{AuthenticatorID: lateID}
+		c, err := cfg.ToClient(context.Background(), lateHost{componenttest.NewNopHost(), l}, componenttest.NewNopTelemetrySettings())
+		if err != nil {
+			continue
+		}
+		for rep := 0; rep < 6 && len(bad) < 5; rep++ {
+			k++
+			bodies := [2][]byte{makeBody("text", int64(30000+211*k), seed*7919+int64(k)), makeBody("random", int64(9000+97*k), seed*104729+int64(k))}
+			ids := [2]string{fmt.Sprintf("la%d", k), fmt.Sprintf("lb%d", k)}
+			// A: answered at once, transferred later
+			reqA, _ := http.NewRequest(http.MethodPost, url, bytes.NewReader(bodies[0]))
+			reqA.Header.Set("X-Verif-Id", ids[0])
+			reqA.Header.Set("X-Verif-Late", ids[0])
+			reqA.Header.Set("Content-Type", "application/octet-stream")
+			if resp, err := c.Do(reqA); err == nil {
+				resp.Body.Close()
+			}
+			// B: an ordinary request through the same client
+			_, errB := e.do(c, url, ids[1], enc, bodies[1])
+			l.mu.Lock()
+			gate, done := l.gate[ids[0]], l.done[ids[0]]
+			l.mu.Unlock()
+			if gate == nil {
+				continue
+			}
+			close(gate)
+			select {
+			case <-done:
+			case <-time.After(30 * time.Second):
+			}
+			if errB != nil && !strings.Contains(errB.Error(), "with Body length") {
+				continue // a connection incident: no verdict
+			}
+			for i, pid := range ids {
+				rec := e.probe.get(pid, false)
+				what := ""
+				if rec == nil {
+					what = "the handler was not reached"
+				} else {
+					select {
+					case <-rec.done:
+						if rec.n != int64(len(bodies[i])) || rec.sum != sha256.Sum256(bodies[i]) {
+							what = fmt.Sprintf("the handler read %d bytes (error %q), the client was given %d bytes", rec.n, rec.err, len(bodies[i]))
+						}
+					case <-time.After(20 * time.Second):
+						what = "the handler did not finish reading the body"
+					}
+					e.probe.drop(pid)
+				}
+				if what != "" {
+					bad = append(bad, map[string]any{"id": -k, "what": fmt.Sprintf("enc=%s: request %s of a pair (A answered at once and transferred after B, by a late-transfer inner round tripper): %s", enc, []string{"A", "B"}[i], what)})
+				}
+			}
+		}
+	}
+	return bad
+}
+
 type clientInconsistent struct{ what string }
 
 func (c clientInconsistent) Error() string { return "client produced an inconsistent request: " + c.what }
@@ -484,6 +672,7 @@ func (e *env) runOne(p planLine, seed int64) (outLine, error) {
 	var netErr string
 	attempts := 0
 	hung := 0
+	inconsistent := ""
 	for attempts < 3 {
 		attempts++
 		pid := fmt.Sprintf("p%d-%d", p.ID, attempts)
@@ -511,7 +700,16 @@ func (e *env) runOne(p planLine, seed int64) (outLine, error) {
 			break
 		}
 		netErr = err.Error()
+		if strings.Contains(netErr, "with Body length") {
+			// net/http found the body it was handed shorter / longer than the length the client stack declared: the
+			// request the confighttp client produced is inconsistent (e.g. its compressed buffer was changed under it
+			// by another request -- seeded change C16-8 pooled that buffer).  Never a network incident.
+			inconsistent = fmt.Sprintf("enc=%s level=%d signed=%v body=%s/%s n=%d (attempt %d): %v", p.Enc, p.Level, p.ID%3 == 1, p.Size, p.Kind, n, attempts, err)
+		}
 		c.CloseIdleConnections()
+	}
+	if inconsistent != "" {
+		return outLine{}, clientInconsistent{inconsistent}
 	}
 	o := obsRec{Status: "none"}
 	if netErr == "" {
@@ -611,6 +809,11 @@ func main() {
 	for _, i := range big {
 		out[i], errs[i] = e.runOne(plan[i], seed)
 	}
+	var pairs []map[string]any
+	if len(plan) > 100 { // not for replays of a single request
+		pairs = e.earlyPairs(seed)
+		pairs = append(pairs, e.latePairs(seed)...)
+	}
 	for _, cl := range e.closers {
 		cl()
 	}
@@ -624,6 +827,10 @@ func main() {
 	bad := 0
 	cf, _ := os.Create(os.Args[3] + ".clientfail")
 	defer cf.Close()
+	for _, b := range pairs {
+		bb, _ := json.Marshal(b)
+		cf.Write(append(bb, '\n'))
+	}
 	for i := range out {
 		var ci clientInconsistent
 		if errors.As(errs[i], &ci) {
